@@ -19,6 +19,9 @@ import (
 type c30model struct {
 	exp   map[string]int64 // key -> expiry in ns (0 = none); key absent = no record
 	clock int64            // virtual ns since Epoch
+	// hidden implementation state that changes the futures of a state: whether this swamp instance has built its
+	// expiry index, and whether the instance was loaded from its file. Part of the state key (never compared).
+	built, reloaded bool
 }
 
 func (m *c30model) now() int64 { return vrt.Epoch + m.clock }
@@ -36,7 +39,7 @@ func (m *c30model) canon() string {
 	for _, k := range ks {
 		fmt.Fprintf(&b, "%s=%d;", k, (m.exp[k]-vrt.Epoch)/1e9*boolInt(m.exp[k] != 0))
 	}
-	fmt.Fprintf(&b, "clock=%d", m.clock/1e9)
+	fmt.Fprintf(&b, "clock=%d index-built=%v loaded-from-file=%v", m.clock/1e9, m.built, m.reloaded)
 	return b.String()
 }
 
@@ -149,8 +152,8 @@ func c30ops() []c30op {
 				r.gw.GetByIndex(bg, &hydrapb.GetByIndexRequest{IslandID: 1, SwampName: s, IndexType: hydrapb.IndexType_EXPIRATION_TIME})
 				r.gw.GetByIndex(bg, &hydrapb.GetByIndexRequest{IslandID: 1, SwampName: s, IndexType: hydrapb.IndexType_EXPIRATION_TIME, OrderType: hydrapb.OrderType_DESC})
 			},
-			func(m *c30model) {}},
-		c30op{"CloseAndReopen", func(r *rigT, s string) { r.closeSwamp(s) }, func(m *c30model) {}},
+			func(m *c30model) { m.built = len(m.exp) > 0 }},
+		c30op{"CloseAndReopen", func(r *rigT, s string) { r.closeSwamp(s) }, func(m *c30model) { m.built, m.reloaded = false, len(m.exp) > 0 }},
 		c30op{"AdvanceClock(2s)", func(r *rigT, s string) { vrt.Advance(2e9) }, func(m *c30model) { m.clock += 2e9 }},
 	)
 	return ops
